@@ -96,6 +96,9 @@ func writeSite(h *MuxH, c *MCall, failAt int) string {
 	case b[3]&0x20 != 0 && in <= 4+int(b[4]):
 		return "adaptation-field"
 	}
+	if (b[1]&0x1f == 0x03) && b[2] == 0x01 && b[in] == 0xff { // caller PID 0x301: padded short packet
+		return "trailing-ff-padding"
+	}
 	return "payload"
 }
 
@@ -116,7 +119,7 @@ func checkC18(c *mc.Ctx) {
 	scens := map[string][]MOp{
 		"tables-and-stuffing-cases": append(append([]MOp{}, setupAB...), opTables, opDataAs1, opDataAs2, opDataAfit, opDataA1),
 		"multi-packet-and-af":       append(append([]MOp{}, setupAB...), opDataA3, opDataARAI, opDataAprv, opDataB1),
-		"writepacket":               append(append([]MOp{}, setupAB...), opPktNull, opPktAF, opDataAs1, opTables, opPktNull),
+		"writepacket":               append(append([]MOp{}, setupAB...), opPktNull, opPktAF, opPktShort, opDataAs1, opTables, opPktShAF, opPktNull),
 		"full-header-ext-af":        append(append([]MOp{}, setupAB...), MOp{K: "data", PID: 0x100, Len: 300, Hdr: "full", AF: "ext"}, MOp{K: "data", PID: 0x101, Len: 150, Hdr: "ptsdts", AF: "splice"}, opDataAs1),
 	}
 	if c.Thorough() {
